@@ -343,6 +343,22 @@ def run_shard(rec):
     idx += 1
     if rec.mine(idx):
         run_parent_styles(rec, styles)
+    # one name is a rule in one place and a parameter / let variable in another; the same textual form
+    # (Opt(Word), Word*, Word // ",") occurs in both scopes
+    Wd = ('ref', 'Word')
+    for ftag, mk in (('opt', lambda x: ('opt', x)), ('star', lambda x: ('star', x)), ('plus', lambda x: ('plus', x)), ('sep', lambda x: ('sep', x, ('str', ','), {'_op': '//'})),
+                     ('seq', lambda x: ('seq', [x, ('opt', x)])), ('alt', lambda x: ('alt', [x, ('str', '!')])), ('right', lambda x: ('right', ('str', '.'), x))):
+        for order in ('rule-first', 'param-first'):
+            idx += 1
+            if not rec.mine(idx):
+                continue
+            start = ('seq', [mk(Wd), ('call', 'Wrap', [('str', 'x')]), ('let', 'Word', ('str', 'y'), mk(Wd)), ('opt', mk(Wd))]) if order == 'rule-first' else \
+                    ('seq', [('call', 'Wrap', [('str', 'x')]), ('let', 'Word', ('str', 'y'), mk(Wd)), mk(Wd)])
+            stmts = [('rule', 'start', None, start), ('rule', 'Wrap', ['Word'], ('seq', [('str', '<'), mk(Wd), ('str', '>')])), ('rule', 'Word', None, ('re', '[ab]', False))]
+            if order == 'param-first':
+                stmts = [stmts[1], stmts[0], stmts[2]]
+            run_ast(rec, dict(name=None, extends=None, stmts=stmts), [t for t in work.inputs_for('abxy<>,.!', 3)][::3] + ['a<x>y', 'ab<xx>yya', '<x>ya', '.a<.x>.yb', 'a,b<x,x>y,ya', '<>', 'a<x>y!'],
+                    ('scope-shadow', ftag, order), styles)
     # repetition / list / option forms over every kind of leaf in grammars that declare ignore patterns
     # (each element is a token of its own: ignorable text may stand between any two of them)
     LEAVES = [('re-class', ('re', '[ab]', False)), ('re-lit', ('re', 'a', False)), ('str', ('str', 'a')), ('istr', ('istr', 'a')), ('ref', ('ref', 'Rl')),
